@@ -11,6 +11,7 @@ import (
 	"encoding/json"
 	"fmt"
 	"net"
+	"sort"
 	"strings"
 	"sync/atomic"
 	"time"
@@ -123,7 +124,8 @@ func (w *world) cases(c *engine.Ctx, emit func(kase)) {
 		{"three-digit-header", "100-" + b64(harness.Bytes("r16", 16))}, {"hyphens", "---"}, {"long-no-header", strings.Repeat("A", 200)},
 	}
 	for _, base := range []bool{false, true} {
-		for pn, p := range prefixes {
+		for _, pn := range []string{"auth", "fetch", "pref"} {
+			p := prefixes[pn]
 			for _, s := range simple {
 				emit(kase{Kind: "alpn", Protos: []string{p + s.s}, Desc: pn + ":" + s.n, BaseTLS: base})
 				emit(kase{Kind: "alpn", Protos: []string{"h2", p + s.s, "zz"}, Desc: "h2," + pn + ":" + s.n + ",zz", BaseTLS: base})
@@ -151,7 +153,8 @@ func (w *world) cases(c *engine.Ctx, emit func(kase)) {
 	}
 	// honest requests truncated at every length, padded, duplicated, mixed
 	auth, fetch := w.honestAuthRaw(), w.honestFetchRaw()
-	for name, raw := range map[string][]byte{"auth": auth, "fetch": fetch} {
+	for _, name := range []string{"auth", "fetch"} {
+		raw := map[string][]byte{"auth": auth, "fetch": fetch}[name]
 		step := 1
 		if !c.Thorough() {
 			step = 3
@@ -180,12 +183,15 @@ func (w *world) cases(c *engine.Ctx, emit func(kase)) {
 		"unknown-activation-token": harness.ForgedToken(w.seed), "consumed-activation-token": w.usedToken.Bytes, "token-without-fields": append(emptyTok, 0x1a, 0x00),
 		"token-with-nonce-only": halfTok, "1-byte": {7}, "31-bytes": harness.Bytes("n31", 31), "33-bytes": harness.Bytes("n33", 33), "64-bytes": harness.Bytes("n64", 64), "4KiB": harness.Bytes("n4k", 4096),
 	}
-	for name, n := range nonces {
+	for _, name := range sortedKeys(nonces) {
+		n := nonces[name]
 		req := harness.SignedRequest(harness.Info(kp, ep, n), kp)
 		b, _ := proto.Marshal(req)
 		emit(kase{Kind: "alpn", Protos: chunks(prefixes["fetch"], b), Desc: "well-signed fetch request with nonce " + name})
 		// the same with sealed registration info attached (garbage and well-formed but foreign)
-		for wn, wi := range map[string][]byte{"garbage": []byte("not a blob"), "short-blob": {0x0a, 0x02, 0x01, 0x02}, "foreign-sealed": harness.SealRegistrationInfo(harness.Wrapper("someone-else", w.seed), kp.Pkix, n)} {
+		wis := map[string][]byte{"garbage": []byte("not a blob"), "short-blob": {0x0a, 0x02, 0x01, 0x02}, "foreign-sealed": harness.SealRegistrationInfo(harness.Wrapper("someone-else", w.seed), kp.Pkix, n)}
+		for _, wn := range sortedKeys(wis) {
+			wi := wis[wn]
 			info := harness.Info(kp, ep, n)
 			info.WrappedRegistrationInfo = wi
 			b, _ := proto.Marshal(harness.SignedRequest(info, kp))
@@ -211,7 +217,8 @@ func (w *world) cases(c *engine.Ctx, emit func(kase)) {
 	for n := 1; n <= 64; n++ {
 		raws[fmt.Sprintf("seeded-%d", n)] = harness.Bytes(fmt.Sprintf("raw:%d:%d", n, c.Seed), n)
 	}
-	for name, b := range raws {
+	for _, name := range sortedKeys(raws) {
+		b := raws[name]
 		emit(kase{Kind: "raw", Raw: b, Desc: name})
 	}
 	// drops at every step of honest handshakes
@@ -222,6 +229,17 @@ func (w *world) cases(c *engine.Ctx, emit func(kase)) {
 			}
 		}
 	}
+}
+
+// sortedKeys: case enumeration must be identical in every worker process
+// (shards take cases by number), so maps are never ranged over directly.
+func sortedKeys(m map[string][]byte) []string {
+	var ks []string
+	for k := range m {
+		ks = append(ks, k)
+	}
+	sort.Strings(ks)
+	return ks
 }
 
 func protoBytesField(num int, b []byte) []byte {
